@@ -71,7 +71,9 @@ pub const COMPRESSIONS: [&str; 4] = ["none", "zlib", "bzip2", "lzma"];
 fn flat_name() -> impl Strategy<Value = String> {
     // host-safe, no leading '-' or '.', no blanks at the ends, always an extension
     // (one in ten names is longer than any column a listing could be cut to)
-    (prop_oneof![9 => "[A-Za-z0-9_][A-Za-z0-9_ .+-]{0,10}[A-Za-z0-9_]|[A-Za-z0-9_]{1,2}", 1 => "[A-Za-z0-9_]{70,110}"], "[a-z0-9]{1,3}").prop_map(|(a, e)| format!("{a}.{e}"))
+    (prop_oneof![9 => "[A-Za-z0-9_][A-Za-z0-9_ .+-]{0,10}[A-Za-z0-9_]|[A-Za-z0-9_]{1,2}", 1 => "[A-Za-z0-9_]{70,110}"], "[a-z0-9]{1,3}", 0u8..8)
+        // one name in eight repeats its extension inside the stem ("notes.txt.bak.txt")
+        .prop_map(|(a, e, rep)| if rep == 0 { format!("{a}.{e}.bak.{e}") } else { format!("{a}.{e}") })
 }
 
 fn dir_name() -> impl Strategy<Value = String> {
@@ -247,6 +249,45 @@ fn check_views(sb: &Sandbox, arch: &str, with_tree: bool, ctx: &str) -> Result<V
             ));
         }
     }
+    // list --filter: the printed subset equals the subset of the library's names the pattern selects
+    // (documented as simple wildcard matching: '*' stands for any run of characters, the match is
+    // case-insensitive and anchored at both ends; a pattern without '*' selects names containing it)
+    if !lib_names.is_empty() {
+        let mut patterns: BTreeSet<String> = BTreeSet::new();
+        for n in lib_names.iter().filter(|n| !n.starts_with('(')).take(3) {
+            let cs: Vec<char> = n.chars().collect();
+            if let Some(c) = cs.last() {
+                patterns.insert(format!("*{c}"));
+            }
+            if let Some(dot) = n.rfind('.') {
+                patterns.insert(format!("*{}", &n[dot..]));
+            }
+            if cs.len() >= 3 {
+                patterns.insert(format!("{}*", cs[..2].iter().collect::<String>()));
+                patterns.insert(format!("*{}*", cs[1..cs.len() - 1].iter().take(3).collect::<String>()));
+                patterns.insert(format!("{}*{}", cs[0], cs[cs.len() - 1]));
+                patterns.insert(cs[1..cs.len() - 1].iter().take(4).collect::<String>().to_ascii_uppercase());
+            }
+            patterns.insert(n.clone());
+        }
+        for pat in patterns.iter().filter(|p| !p.is_empty() && !p.starts_with('-')).take(8) {
+            let args = crate::sandbox::sv(&["mpq", "list", arch, "--filter", pat]);
+            let r = sb.run(&args);
+            if !r.ok() {
+                return Err(Fail::new(format!("list-filter-fails-on-readable-archive:{ctx}"), format!("`{}` → {}", cmdline(&args), show(&r))));
+            }
+            let want: BTreeSet<String> = lib_names.iter().filter(|n| glob_selects(pat, n)).cloned().collect();
+            let got: BTreeSet<String> = if r.stdout.contains("No files found matching pattern") { BTreeSet::new() } else { list_lines(&r.stdout) };
+            if got != want {
+                let missing: Vec<_> = want.difference(&got).take(4).collect();
+                let extra: Vec<_> = got.difference(&want).take(4).collect();
+                return Err(Fail::new(
+                    format!("list-filter-output-differs-from-library:{ctx}"),
+                    format!("`{}` printed {} names, the pattern selects {} of Archive::list's names; not printed: {:?}; only printed: {:?}", cmdline(&args), got.len(), want.len(), missing, extra),
+                ));
+            }
+        }
+    }
     // info
     let args = crate::sandbox::sv(&["mpq", "info", arch]);
     let r = sb.run(&args);
@@ -283,6 +324,36 @@ fn check_views(sb: &Sandbox, arch: &str, with_tree: bool, ctx: &str) -> Result<V
         }
     }
     Ok(lib)
+}
+
+/// independent wildcard matcher (dynamic programming over characters): '*' = any run, the rest
+/// literal, case-insensitive, anchored; without '*' the pattern selects names that contain it
+fn glob_selects(pattern: &str, name: &str) -> bool {
+    let p: Vec<char> = pattern.to_lowercase().chars().collect();
+    let t: Vec<char> = name.to_lowercase().chars().collect();
+    if !p.contains(&'*') {
+        return p.is_empty() || t.windows(p.len()).any(|w| w == p.as_slice());
+    }
+    let mut reach = vec![false; t.len() + 1];
+    reach[0] = true;
+    for &pc in &p {
+        let mut next = vec![false; t.len() + 1];
+        if pc == '*' {
+            let mut any = false;
+            for i in 0..=t.len() {
+                any |= reach[i];
+                next[i] = any;
+            }
+        } else {
+            for i in 0..t.len() {
+                if reach[i] && t[i] == pc {
+                    next[i + 1] = true;
+                }
+            }
+        }
+        reach = next;
+    }
+    reach[t.len()]
 }
 
 fn resolve_names(sel: &[NameSel], present: &[String]) -> (Vec<String>, Vec<String>) {
